@@ -95,6 +95,7 @@ type DataObject struct {
 	Name string `json:"name"`
 	Body string `json:"body,omitempty"` // JSON
 	Prop bool   `json:"prop,omitempty"` // a bpmn:property of the process instead of a data object
+	RefOf string `json:"ref_of,omitempty"` // a bpmn:dataObjectReference to the data object with this id instead of a data object
 }
 
 // Graph is a whole process (sub-process contents are flattened in with Scope set).
@@ -285,6 +286,10 @@ func XML(graphs []*Graph, exec []bool, extra string) string {
 		for _, o := range g.Objects {
 			if o.Prop {
 				fmt.Fprintf(&b, `    <bpmn:property id="%s" name="%s"/>`+"\n", o.ID, o.Name)
+				continue
+			}
+			if o.RefOf != "" {
+				fmt.Fprintf(&b, `    <bpmn:dataObjectReference id="%s" name="%s" dataObjectRef="%s"/>`+"\n", o.ID, o.Name, o.RefOf)
 				continue
 			}
 			if o.Body != "" {
